@@ -16,6 +16,8 @@ pub(super) struct State {
     last_send_access: Option<Access>,
     /// Last access that was a receive operation.
     last_recv_access: Option<Access>,
+    /// Last access that was a `try_recv` operation.
+    last_try_recv_access: Option<Access>,
 
     /// A synchronization point for synchronizing the sending threads and the
     /// channel.
@@ -47,6 +49,9 @@ pub(super) enum Action {
     MsgSend,
     /// Receive a message
     MsgRecv,
+    /// Try to receive a message: never blocks, and its outcome depends on the
+    /// sends that precede it.
+    MsgTryRecv,
 }
 
 impl Channel {
@@ -56,6 +61,7 @@ impl Channel {
                 msg_cnt: 0,
                 last_send_access: None,
                 last_recv_access: None,
+                last_try_recv_access: None,
                 sender_synchronize: Synchronize::new(),
                 receiver_synchronize: VecDeque::new(),
                 created: location,
@@ -100,9 +106,25 @@ impl Channel {
         })
     }
 
+    /// Returns `true` if a message was taken from the channel.
+    pub(crate) fn try_recv(&self, location: Location) -> bool {
+        self.state.branch_action(Action::MsgTryRecv, location);
+
+        if self.is_empty() {
+            return false;
+        }
+
+        self.post_recv();
+        true
+    }
+
     pub(crate) fn recv(&self, location: Location) {
         self.state
             .branch_disable(Action::MsgRecv, self.is_empty(), location);
+        self.post_recv();
+    }
+
+    fn post_recv(&self) {
         super::execution(|execution| {
             let state = self.state.get_mut(&mut execution.objects);
             let thread_id = execution.threads.active_id();
@@ -162,10 +184,22 @@ impl State {
         }
     }
 
-    pub(super) fn last_dependent_access(&self, action: Action) -> Option<&Access> {
+    /// A send depends on the last send and on the last `try_recv` (which
+    /// observes whether the message is there); a receive depends on the last
+    /// receive; a `try_recv` depends on the last receive and on the last send.
+    pub(super) fn last_dependent_accesses(&self, action: Action) -> Vec<&Access> {
         match action {
-            Action::MsgSend => self.last_send_access.as_ref(),
-            Action::MsgRecv => self.last_recv_access.as_ref(),
+            Action::MsgSend => self
+                .last_send_access
+                .iter()
+                .chain(self.last_try_recv_access.iter())
+                .collect(),
+            Action::MsgRecv => self.last_recv_access.iter().collect(),
+            Action::MsgTryRecv => self
+                .last_recv_access
+                .iter()
+                .chain(self.last_send_access.iter())
+                .collect(),
         }
     }
 
@@ -173,6 +207,10 @@ impl State {
         match action {
             Action::MsgSend => Access::set_or_create(&mut self.last_send_access, path_id, version),
             Action::MsgRecv => Access::set_or_create(&mut self.last_recv_access, path_id, version),
+            Action::MsgTryRecv => {
+                Access::set_or_create(&mut self.last_recv_access, path_id, version);
+                Access::set_or_create(&mut self.last_try_recv_access, path_id, version);
+            }
         }
     }
 }
